@@ -4939,6 +4939,8 @@ class ParseCtx:
             # Find all of the matches
             if all(all(pred.data == "else_predicate" for pred in clause.children if pred.data in ("else_predicate", "expr_predicate")) for clause in stmt.children):
                 raise IllegalParseTree("A case statement needs at least one clause that matches input", stmt)
+            if sum(1 for clause in stmt.children if any(pred.data == "else_predicate" for pred in clause.children)) > 1:
+                raise IllegalParseTree("A case statement can have only one else clause", stmt)
             return ProgramData.imbue(ProgramData.imbue(CaseNode({k: v for k, v in (self._parse_case_clause(x) for x in stmt.children)}), 
                 DTAG.SOURCE_LINE, stmt.meta.line),
                 DTAG.SOURCE_COLUMN, stmt.meta.column
